@@ -96,6 +96,15 @@ func VH_C06_seed() {
 	_ = vm3.Run("3d6 + d20")
 	seed3, _ := vm2.GetCurSeed()
 	vAssert(bytes.Equal(seed3, seed), "state-unchanged-by-another-context")
+	// seeding the same context again from equal bytes, after it rolled, rewinds it
+	// (the generator is moved by installing another state: in this harness dice are summarised)
+	vAssert(vm2.RandSrc.UnmarshalBinary([]byte{7, 7, 7, 7, 7, 7, 7, 7, 3, 3, 3, 3, 3, 3, 3, 3}) == nil, "generator-state-can-be-set")
+	moved, _ := vm2.GetCurSeed()
+	vAssert(!bytes.Equal(moved, seed) || (lo == 0x0303030303030303 && hi == 0x0707070707070707), "generator-moved")
+	vm2.Seed = append([]byte(nil), seed...)
+	vm2.Init()
+	seed4, _ := vm2.GetCurSeed()
+	vAssert(bytes.Equal(seed4, seed), "re-seeding-from-equal-bytes-rewinds-the-generator")
 	// seeding does not touch the package-level generator either
 	g0, _ := randSource.MarshalBinary()
 	vm4 := NewVM()
